@@ -280,17 +280,24 @@ WebSocketMsg WebSocket::receive()
 		bool fin = !!(b0 & 0x80);
 		int opcode = b0 & 0x0f;
 		bool masked = !!(mlen & 0x80);
-		int len = mlen & 0x7f;
-		if (len == 126)
+		Long len64 = mlen & 0x7f;
+		if (len64 == 126)
 		{
-			len = _socket.read<unsigned short>();
+			len64 = _socket.read<unsigned short>();
 		}
-		else if (len == 127)
-			len = (int)_socket.read<Long>(); // what if length larger than int?
+		else if (len64 == 127)
+			len64 = _socket.read<Long>();
 
 		unsigned mask = 0;
 		if (masked)
 			_socket >> mask;
+
+		if (_socket.error() || len64 < 0 || len64 > 0x7ffffff0) // header cut short, or a length no message can have
+		{
+			close();
+			return WebSocketMsg();
+		}
+		int len = (int)len64;
 
 		buffer.resize(buffer.length() + len);
 		if (len > 0)
